@@ -174,3 +174,25 @@ Definition run_threads_n (clk : positive) (n : nat) (base : Z) (comm : bytes) (a
        jv_outcome jrows (threads clk (map task_entry ts) alive (k_stat own));
        (if forallb wf_kthread ts && (alive || negb (any_gone ts))
         then jval (jrows (spec_trows clk (sort_by t_tid ts))) else jnone) ].
+
+(* wave 8: Process handles, copies and PROCFS_PATH (C06/Handles.v); a record is named by a number, the harness knows what
+   each number publishes.  [model; spec without deep copies; spec when deep copies are delivered] *)
+From PV Require Import C06.Handles.
+Definition jhres (r : hres Z) : jv :=
+  match r with
+  | RNone _ => JC "Unit" []
+  | RHandle _ n => JC "Handle" [JZ (Z.of_nat n)]
+  | RAns _ (Some z) => JC "Ans" [JZ z]
+  | RAns _ None => JC "NoSuchProcess" []
+  | RNoSuch _ => JC "NoSuchProcess" []
+  | RTypeError _ => JC "TypeError" []
+  | RBad _ => JC "Bad" []
+  end.
+Definition hworld (ents : list (Z * Z * Z)) : Z -> Z -> option Z :=
+  fun t p => match find (fun e => Z.eqb (fst (fst e)) t && Z.eqb (snd (fst e)) p)%bool ents with
+             | Some e => Some (snd e) | None => None end.
+Definition run_copy_hist (ents : list (Z * Z * Z)) (ops : list (hop Z)) : jv :=
+  let s := {| cur := 0; world := hworld ents; hs := [] |} in
+  JL [ JL (map jhres (snd (hrun Z false s ops)));
+       JL (map jhres (snd (grun Z false (ghost_of Z s) ops)));
+       JL (map jhres (snd (grun Z true (ghost_of Z s) ops))) ].
